@@ -208,7 +208,7 @@ m("C18-j", "C18", "libwallet/src/internal/updater.rs", "\t\t\t\t&& t.tx_type == 
 m("C18-k", "C18", "libwallet/src/internal/updater.rs", "\t\t\tif *was_unspent && !api_outputs.contains_key(commit) {", "\t\t\tif *was_unspent || !api_outputs.contains_key(commit) {", "C18.R4")
 
 # ---- from the sixth wave
-m("C16-n", "C16", "libwallet/src/api_impl/owner.rs", "\tupdate_outputs(wallet_inst.clone(), keychain_mask, true)?;\n\tlet tip = {", "\tlet tip = {", "C16.R6")
+m("C16-n", "C16", "libwallet/src/api_impl/owner.rs", "\tupdate_outputs(wallet_inst.clone(), keychain_mask, true, true)?;\n\tlet tip = {", "\tlet tip = {", "C16.R6")
 m("C08-f", "C08", "libwallet/src/slate_versions/v4_bin.rs", "\t\t\twriter.write_u64(lock_hgt)?;", "\t\t\twriter.write_u64(lock_hgt as u32 as u64)?;", "C08.R8")
 m("C02-k", "C02", "libwallet/src/internal/tx.rs", "\t\tif t.tx_type == TxLogEntryType::TxSent && !is_invoiced {", "\t\tif t.tx_type == TxLogEntryType::TxSent {", "C02.R7")
 
@@ -288,13 +288,17 @@ m("C06-r9", "C06", "libwallet/src/internal/scan.rs", "\t// restore labels, accou
 
 m("C19-r3g", "C19", "libwallet/src/api_impl/owner.rs", "\t\t\t.find(|t| t.id == i && t.parent_key_id == parent_key_id);", "\t\t\t.find(|t| t.id == i);", "C19.R3")
 m("C03-r3rx", "C03", "libwallet/src/api_impl/foreign.rs", "\t\tif t.tx_type == TxLogEntryType::TxReceivedCancelled {\n\t\t\treturn Err(Error::TransactionWasCancelled(ret_slate.id.to_string()));\n\t\t}\n", "", "C03.R3")
-m("C18-r9", "C18", "libwallet/src/api_impl/owner.rs", "\tupdate_outputs(wallet_inst.clone(), keychain_mask, true)?;\n\tlet tip = {", "\tupdate_outputs(wallet_inst.clone(), keychain_mask, start_height.map_or(true, |h| h <= 1))?;\n\tlet tip = {", "C18.R9")
+m("C18-r9", "C18", "libwallet/src/api_impl/owner.rs", "\tupdate_outputs(wallet_inst.clone(), keychain_mask, true, true)?;\n\tlet tip = {", "\tupdate_outputs(\n\t\twallet_inst.clone(),\n\t\tkeychain_mask,\n\t\tstart_height.map_or(true, |h| h <= 1),\n\t\ttrue,\n\t)?;\n\tlet tip = {", "C18.R9")
 
 m("C03-r3rev", "C03", "libwallet/src/api_impl/foreign.rs", "\t\tif t.tx_type == TxLogEntryType::TxReceived || t.tx_type == TxLogEntryType::TxReverted {", "\t\tif t.tx_type == TxLogEntryType::TxReceived {", "C03.R3")
 m("C03-r3inv", "C03", "libwallet/src/api_impl/owner.rs", "\t// Don't do this multiple times, from whichever account\n\tlet tx = updater::retrieve_txs(&mut *w, None, Some(ret_slate.id), None, None, use_test_rng)?;", "\t// Don't do this multiple times\n\tlet tx = updater::retrieve_txs(\n\t\t&mut *w,\n\t\tNone,\n\t\tSome(ret_slate.id),\n\t\tNone,\n\t\tSome(&parent_key_id),\n\t\tuse_test_rng,\n\t)?;", "C03.R3")
 m("C14-r9", "C14", "libwallet/src/api_impl/owner_updater.rs", "\t\tself.is_running.store(false, Ordering::Relaxed);\n\t\tres\n", "\t\tres\n", "C14.R9")
 m("C03-r3ctx", "C03", "libwallet/src/api_impl/owner.rs", "\t// Don't do this multiple times\n\tlet tx = updater::retrieve_txs(\n\t\t&mut *w,\n\t\tNone,\n\t\tSome(slate.id),\n\t\tNone,\n\t\tSome(&context.parent_key_id),", "\t// Don't do this multiple times\n\tlet active_account = w.parent_key_id();\n\tlet tx = updater::retrieve_txs(\n\t\t&mut *w,\n\t\tNone,\n\t\tSome(slate.id),\n\t\tNone,\n\t\tSome(&active_account),", "C03.R3")
 m("C06-r8mu", "C06", "libwallet/src/internal/scan.rs", "\tfor mut o in released {\n\t\to.status = OutputStatus::Unspent;", "\tfor mut o in released {\n\t\to.mark_unspent();", "C06.R8")
+
+m("C16-r11a", "C16", "libwallet/src/api_impl/owner.rs", "\tupdate_outputs(wallet_inst.clone(), keychain_mask, true, true)?;\n\tlet tip = {", "\tupdate_outputs(wallet_inst.clone(), keychain_mask, true, false)?;\n\tlet tip = {", "C16.R11")
+m("C16-r11b", "C16", "libwallet/src/api_impl/owner.rs", "\t\ttrue => w.acct_path_iter().map(|m| m.path).collect(),", "\t\ttrue => w.acct_path_iter().map(|m| m.path).take(1).collect(),", "C16.R11")
+m("C06-r5sum", "C06", "libwallet/src/internal/updater.rs", "\t\t\t\t\t\tawaiting_finalization_total =\n\t\t\t\t\t\t\tawaiting_finalization_total.saturating_add(out.value);", "\t\t\t\t\t\tawaiting_finalization_total += out.value;", "C06.R5")
 
 
 def for_property(prop):
